@@ -337,7 +337,7 @@ def mon_C07(sc, trace, probes, info):
                 out.append(('until %r was interrupted at %r but its notification fires at %r' % (name, t1, trig), None))
     if sc.get('till') is not None:
         T = tv(sc['till'])
-        for e in trace[:-1]:
+        for e in trace[:-2]:
             if e[0] > T:
                 out.append(('event %r at time %r after till=%r' % (e, e[0], T), None))
                 break
